@@ -13,14 +13,15 @@ LEVEL = "exploration"
 RULE = ("Hypothesis rule-based state machine: a generated ledger (forked history with spends spreading outputs over wallet and "
         "foreign keys) and a wallet of 1-6 keys; rules: spend(amount, fee) with amount/fee drawn below, at, one above and far "
         "above the spendable total; spend with an injected failure of the k-th signature (no transaction returned: the used-output "
-        "record must be unchanged); confirm (mine a block containing a subset of the earlier successful spends); plain block. "
+        "record must be unchanged); confirm (mine a block containing a subset of the earlier successful spends); plain block; reorg "
+        "(a competing branch forking 1-3 blocks below the head overtakes it, so that outputs appear and vanish). "
         "Model: spendable = wallet-owned unspent outputs at the head not used by an earlier SUCCESSFUL spend. Oracle: success "
         "iff spendable >= amount+fee; on success the transaction passes the node's by-itself and in-state validation and the "
         "reference checks (ecdsa under the owner's key over the blanked transaction), output 0 = (amount, recipient), change = "
         "inputs-amount-fee to the change key iff > 0, inputs within spendable, distinct, disjoint from earlier spends; on failure "
         "an exception and spent_transaction_outputs unchanged. non-trivial = sequence containing a failed attempt followed by an "
         "affordable request; distinct = digest of the op list.")
-ASSUMPTIONS = ["test configuration (fast scrypt stand-in, checkpoints off)", "spends extend the head only (no reorganisation between spends)"]
+ASSUMPTIONS = ["test configuration (fast scrypt stand-in, checkpoints off)", "blocks of a reorganising branch carry no ordinary transactions"]
 MIN_NONTRIVIAL = {"quick": 40, "thorough": 500}
 
 
@@ -198,6 +199,34 @@ class Exec:
                 self.run.harness.clear()
 
 
+        elif op[0] == "reorg":
+            # a competing branch, forking `depth` blocks below the head, overtakes the active chain: outputs created on the
+            # abandoned branch vanish, outputs spent there are unspent again -- the wallet must follow the NEW head
+            _, depth, miner = op
+            head = self.head()
+            d = min(1 + depth % 3, head.height - 1)
+            if d < 1:
+                return
+            anc = self.run.world.uni.nodes[head.chain[head.height - d]]
+            plabel = next(l for l, blk in self.run.world.blocks.items() if blk.id() == anc.id)
+            for j in range(d + 1):
+                self.n_blk += 1
+                label = "r%d" % self.n_blk
+                pnode = self.run.world.uni.nodes[self.run.world.blocks[plabel].id()]
+                bop = {"label": label, "parent": plabel, "miner": (miner + j) % len(KEYS), "dt": self.run.world.safe_dt(pnode, 90), "txs": []}
+                self.run.case = {"cfg": self.run.case["cfg"], "ops": [bop]}
+                self.run.execute()
+                if label not in self.run.world.blocks or self.run.world.blocks[label].id() not in self.run.world.uni.nodes:
+                    self.run.harness.clear()
+                    return
+                plabel = label
+            if self.run.cs.current_chain_hash != self.run.world.blocks[plabel].id():
+                raise env.HarnessError("the longer branch did not become the head")
+            self.flags["reorgs"] = self.flags.get("reorgs", 0) + 1
+            utxo = self.head().utxo
+            self.pending = [n for n in self.pending if all((h, i) in utxo for (h, i, _s) in self.run.world.txs[n].ins)]
+
+
 def gen_init(draw_int, rnd=None):
     return None
 
@@ -254,6 +283,10 @@ class Machine(RuleBasedStateMachine):
     def block(self, miner):
         self.do(["block", 0, miner])
 
+    @rule(depth=st.integers(0, 2), miner=st.integers(0, 7))
+    def reorg(self, depth, miner):
+        self.do(["reorg", depth, miner])
+
     def teardown(self):
         if self.ex is None:
             return
@@ -262,6 +295,8 @@ class Machine(RuleBasedStateMachine):
         res.count("machines")
         res.count("spend_successes", self.ex.flags["successes"])
         res.count("spend_failures", self.ex.flags["failures"])
+        res.count("reorgs", self.ex.flags.get("reorgs", 0))
+        res.count("signing_faults", self.ex.flags.get("signing_faults", 0))
         if self.ex.flags["fail_then_affordable"]:
             res.nontrivial(env.digest(case))
             res.count("machines_fail_then_affordable")
